@@ -89,6 +89,9 @@ def one_state(a, seed, fname, unlisted=None, decor=None):
             extra = sorted((got - exp).elements())
             kind = "missing:" + missing[0][0] if missing else "extra:" + extra[0][0]
             out.append((f"collecting-errors-differ:{kind}", f"{unit} attrs {want}: expected {sorted(exp.elements())} got {sorted(got.elements())}", replay))
+        if ff is not None and isinstance(ff, MetapypeRuleError) and craised is None and errs and str(ff) != errs[0][1] and len(errs) > 1:
+            # "fail-fast mode raises for the first": the exception speaks of the constraint that collecting mode reports first
+            out.append(("failfast-not-for-the-first-violation", f"{unit} attrs {want}: fail-fast says {str(ff)!r}; collecting mode reports first {errs[0][1]!r} (of {len(errs)})", replay))
         if ff is not None and not isinstance(ff, MetapypeRuleError):
             out.append((f"failfast-non-rule-error:{type(ff).__name__}", f"{unit} attrs {want}: {ff!r}", replay))
         elif (ff is not None) != bool(exp):
